@@ -229,6 +229,10 @@ pub fn run_c13(cfg: &Cfg) -> Report {
     if let Some(p) = &cfg.replay {
         let m = read_replay(p).unwrap_or_default();
         let s = parallel(&Cfg { threads: 1, ..cfg.clone() }, 9, |t| {
+            if m.get("kind").map(|s| s.as_str()) == Some("call-sequence") {
+                call_sequences_lane(t, "C13");
+                return;
+            }
             let x: i128 = m.get("x").and_then(|s| s.parse::<i128>().ok()).unwrap_or(0);
             let xu: u128 = m.get("x").and_then(|s| s.parse::<u128>().ok()).unwrap_or(x as u128);
             let pre = m.get("pre").and_then(|s| s.parse().ok()).unwrap_or(0);
@@ -335,6 +339,10 @@ pub fn run_c13(cfg: &Cfg) -> Report {
         }
     });
     rep.stats.merge(s);
+    // fixed-width fields inside messages encoded by successive (failed, successful, re-entrant) top-level calls
+    let s = parallel(cfg, 3, |t| call_sequences_lane(t, "C13"));
+    rep.stats.merge(s);
+    rep.floor("call_sequence_rounds", 5);
     if cfg.tier == Tier::Thorough {
         let s = parallel(cfg, 2, |t| {
             let total: u64 = 1 << 32;
@@ -640,6 +648,90 @@ pub fn c20_value(t: &mut Tctx, algos: &[CrcAlgo], shape: &Shape, val: &Val) {
     }
 }
 
+/// Text formatted piecewise (write_str and write_char pieces of assorted sizes) and serialised through
+/// `collect_str`: every flavour stack must receive the plain encoding of the formatted text, in order.
+struct TextPieces(Vec<String>);
+impl std::fmt::Display for TextPieces {
+    fn fmt(&self, f: &mut std::fmt::Formatter<'_>) -> std::fmt::Result {
+        use std::fmt::Write;
+        for (i, p) in self.0.iter().enumerate() {
+            if i % 3 == 2 {
+                for c in p.chars() {
+                    f.write_char(c)?;
+                }
+            } else {
+                f.write_str(p)?;
+            }
+        }
+        Ok(())
+    }
+}
+impl Serialize for TextPieces {
+    fn serialize<S: serde::Serializer>(&self, s: S) -> Result<S::Ok, S::Error> {
+        s.collect_str(self)
+    }
+}
+
+fn c20_text(t: &mut Tctx, algos: &[CrcAlgo]) {
+    use postcard::ser_flavors::{crc::CrcModifier, Cobs, Slice};
+    static C32: crc::Crc<u32> = crc::Crc::<u32>::new(&crc::CRC_32_ISCSI);
+    let i32 = algos.iter().position(|a| a.name == "crc::CRC_32_ISCSI").unwrap_or(4);
+    let n = t.cfg.scale(3, 3000, 60_000);
+    for _ in 0..n {
+        if t.cfg.expired() {
+            break;
+        }
+        let np = t.rng.range(1, 6);
+        let pieces: Vec<String> = (0..np)
+            .map(|_| match t.rng.below(6) {
+                0 => String::new(),
+                1 => gen_string(&mut t.rng, 3),
+                2 => "p".repeat(t.rng.range(30, 36)),
+                3 => "q".repeat(t.rng.range(62, 70)),
+                4 => gen_string(&mut t.rng, 200),
+                _ => gen_string(&mut t.rng, 12),
+            })
+            .collect();
+        let v = TextPieces(pieces);
+        let text = v.to_string();
+        let plain = spec::encode(&Val::Str(text.clone()));
+        t.st.eval();
+        t.st.count("formatted_text_values");
+        t.st.nontrivial(fp_mix(0xC20_7E87, fp(text.as_bytes())));
+        let mut buf = vec![0u8; plain.len() * 2 + 32];
+        let checks: Vec<(&str, Result<postcard::Result<Vec<u8>>, String>, Vec<u8>)> = vec![
+            ("RecPush", catch(|| postcard::serialize_with_flavor(&v, RecPush { data: Vec::new(), pushes: 0 }).map(|r: RecPush| r.data)), plain.clone()),
+            ("RecExtend", catch(|| postcard::serialize_with_flavor(&v, RecExtend { data: Vec::new(), calls: Vec::new() }).map(|r: RecExtend| r.data)), plain.clone()),
+            ("Slice", catch(|| postcard::serialize_with_flavor(&v, Slice::new(&mut buf)).map(|s: &mut [u8]| s.to_vec())), plain.clone()),
+            ("AllocVec", catch(|| postcard::to_allocvec(&v)), plain.clone()),
+            ("HVec<1024>", if plain.len() <= 1024 { catch(|| postcard::to_vec::<_, 1024>(&v).map(|x| x.to_vec())) } else { Ok(Ok(plain.clone())) }, plain.clone()),
+            ("Cobs<RecExtend>", catch(|| Cobs::try_new(RecExtend { data: Vec::new(), calls: Vec::new() }).and_then(|c| postcard::serialize_with_flavor(&v, c)).map(|r: RecExtend| r.data)), ref_frame(Framing::Cobs, algos, &plain)),
+            ("Cobs<AllocVec>", catch(|| postcard::to_allocvec_cobs(&v)), ref_frame(Framing::Cobs, algos, &plain)),
+            ("Crc32<RecPush>", catch(|| postcard::serialize_with_flavor(&v, CrcModifier::new(RecPush { data: Vec::new(), pushes: 0 }, C32.digest())).map(|r: RecPush| r.data)), ref_frame(Framing::Crc(i32), algos, &plain)),
+            ("Crc32<AllocVec>", catch(|| postcard::to_allocvec_crc32(&v, C32.digest())), ref_frame(Framing::Crc(i32), algos, &plain)),
+            (
+                "Crc32<Cobs<RecExtend>>",
+                catch(|| Cobs::try_new(RecExtend { data: Vec::new(), calls: Vec::new() }).and_then(|c| postcard::serialize_with_flavor(&v, CrcModifier::new(c, C32.digest()))).map(|r: RecExtend| r.data)),
+                ref_frame(Framing::CrcInCobs(i32), algos, &plain),
+            ),
+        ];
+        for (name, got, want) in checks {
+            t.st.eval();
+            match got {
+                Ok(Ok(b)) if b == want => t.st.count("formatted_text_stacks"),
+                other => {
+                    t.st.violation(
+                        &format!("C20:formatted-text-differs:{}", name),
+                        format!("{}: text {:?} formatted in {} pieces gave {:?}, expected {}", name, text, v.0.len(), other.map(|r| r.map(|b| hexs(&b)).map_err(|e| err_label(&e))), hexs(&want)),
+                        vec![kv("kind", "c20-text"), kv("stack", name), kv("text_hex", hex(text.as_bytes()))],
+                    );
+                    return;
+                }
+            }
+        }
+    }
+}
+
 pub fn run_c20(cfg: &Cfg) -> Report {
     let mut rep = Report::new("C20");
     let algos = crc_algos();
@@ -652,6 +744,14 @@ pub fn run_c20(cfg: &Cfg) -> Report {
             let algos = crc_algos();
             if m.get("kind").map(|s| s.as_str()) == Some("impure") {
                 impure_values_lane(t, "C20");
+                return;
+            }
+            if m.get("kind").map(|s| s.as_str()) == Some("call-sequence") {
+                call_sequences_lane(t, "C20");
+                return;
+            }
+            if m.get("kind").map(|s| s.as_str()) == Some("c20-text") {
+                c20_text(t, &algos);
                 return;
             }
             let shape = match Shape::parse(m.get("shape").map(|s| s.as_str()).unwrap_or("")) {
@@ -718,8 +818,27 @@ pub fn run_c20(cfg: &Cfg) -> Report {
         }
     });
     rep.stats.merge(s);
-    let s = parallel(cfg, 2, |t| impure_values_lane(t, "C20"));
+    let s = parallel(cfg, 2, |t| {
+        impure_values_lane(t, "C20");
+        call_sequences_lane(t, "C20");
+        let algos = crc_algos();
+        c20_text(t, &algos);
+        // values nested 65 .. 300 levels: every stack, and undoing the layers, must cope with depth as well
+        let mut di = 0u64;
+        for kind in 0..7 {
+            for &depth in &crate::gen::DEEP_DEPTHS {
+                di += 1;
+                if t.mine(di) && (t.cfg.tier != Tier::Tiny || depth < 130) {
+                    let (shape, val) = crate::gen::deep_case(kind, depth);
+                    t.st.count("deep_nesting_values");
+                    c20_value(t, &algos, &shape, &val);
+                }
+            }
+        }
+    });
     rep.stats.merge(s);
+    rep.floor("formatted_text_stacks", 100);
+    rep.floor("deep_nesting_values", 7);
     rep.floor("impure_value_cases", 20);
     rep.floor("storage_heapless_exact_fit", 20);
     rep.rule = "cases = (value, flavour stack, innermost storage): random-shape values and values crafted around the COBS block length; stacks = plain, Cobs<S>, CrcModifier<S,W> \
